@@ -311,10 +311,11 @@ func (r *relay) processor(id uint32) Processor {
 }
 
 func (r *relay) updateTableSize(v uint32) {
-	r.decoderMu.Lock()
-	r.decoder.SetMaxDynamicTableSize(v)
-	r.decoderMu.Unlock()
-
+	// Only the encoder follows the setting at once. The decoder reads header blocks of the other
+	// endpoint, whose encoder changes its table size only after it has received the forwarded
+	// SETTINGS, and then says so with a dynamic table size update at the start of its next header
+	// block (https://tools.ietf.org/html/rfc7541#section-4.2). Resizing the decoder's table here
+	// would evict entries that header blocks still in flight refer to.
 	r.encoderMu.Lock()
 	r.encoder.SetMaxDynamicTableSize(v)
 	r.encoderMu.Unlock()
